@@ -233,7 +233,27 @@ def rule_worker_capacity(ctx):
         W.uniform_workers(ctx, ctx.program, crate, fam, "W.R2")
 
 
+def rule_capture_loops(ctx):
+    """one connection's rejected packet never ends the analysis of the others (shared with C01.R7); a worker never discards a dequeued packet"""
+    from . import _workers as W
+    P = ctx.program
+    W.capture_loop_exits(ctx, P, "W.R7")
+    for crate, fam in (("huginn_net_tcp", "tcp"), ("huginn_net_http", "http"), ("huginn_net_tls", "tls")):
+        wl = [b for b in P.method("WorkerPool", "worker_loop") if b.crate == crate]
+        if len(wl) == 1:
+            W.received_consumed(ctx, P, fam, wl[0], "W.R6")
+
+
+def rule_reader_state(ctx):
+    """a reader left in the flow table does not keep bytes it can never use (a later connection on the same 4-tuple would inherit them)"""
+    from ..engine import report as R
+    from . import C11
+    C11.rule_R1(R.Retag(ctx, "C11."), only=("TlsClientHelloReader",))
+
+
 def run(ctx):
+    rule_reader_state(ctx)
+    rule_capture_loops(ctx)
     rule_worker_capacity(ctx)
     rule_other_caches(ctx)
     rule_R1(ctx)
